@@ -182,7 +182,7 @@ def load_findings():
 _SAN_RE = re.compile(r"(ERROR: \w+Sanitizer: [^\n]*|runtime error: [^\n]*|WARNING: ThreadSanitizer: [^\n]*)")
 
 
-def run_histories(binary, mode_args, hist_path, trace_path, n_hist, timeout=1800, env=None, max_restarts=200):
+def run_histories(binary, mode_args, hist_path, trace_path, n_hist, timeout=1800, env=None, max_restarts=5000):
     """Run `binary mode_args --from K` with histories on stdin until all n_hist are done.
     The harness prints {"e":"HistDone","i":K} after finishing history K (0-based)."""
     start = 0
